@@ -538,6 +538,9 @@ func (w *watch) watch(fsw *fsnotify.Watcher, m *sync.Mutex, refresh func() error
 	if runtime.GOOS == "darwin" {
 		eventMask |= fsnotify.Create
 	}
+	// A file moved or linked into a Spec directory, or created empty, only
+	// triggers a Create event on Linux, too.
+	eventMask |= fsnotify.Create
 
 	for {
 		select {
